@@ -439,6 +439,44 @@ func generate(c *drv.Ctx) {
 			}
 		}
 	}
+	// (4b) on the wire: raw request bytes to a real net/http server (header field names exactly as spelled, query, path)
+	nWire := 0
+	for _, k := range []kind{{"integer", "int32"}, {"string", ""}, {"boolean", ""}, {"string", "date"}, {"number", "double"}} {
+		for _, f := range []flags{{false, false, false}, {true, false, false}, {false, true, false}} {
+			for _, nm := range append(append([]string{}, headerNames...), "Lim", "x-rate-limit") {
+				d := Decl{In: "header", Name: nm, Type: k.T, Format: k.F, Required: f.Req, HasDef: f.Def, Val: noVal()}
+				if f.Def {
+					d.Def = []string{goodText(k.T, k.F)}
+				}
+				var reqs []Req
+				for _, sent := range []string{nm, strings.ToLower(nm), strings.ToUpper(nm), "X-O"} {
+					for _, t := range []string{goodText(k.T, k.F), badText(k.T, k.F), ""} {
+						reqs = append(reqs, Req{Pairs: []Pair{{K: sent, V: t}}, Wire: true})
+					}
+					reqs = append(reqs, Req{Pairs: []Pair{{K: sent, V: badText(k.T, k.F)}, {K: strings.ToUpper(nm), V: goodText(k.T, k.F)}}, Wire: true})
+				}
+				reqs = append(reqs, Req{Wire: true})
+				c.Case(bindCase(d, reqs))
+				nWire++
+			}
+		}
+		for _, l := range []loc{{"query", ""}, {"path", ""}} {
+			d := Decl{In: l.In, Name: declName(l), Type: k.T, Format: k.F, Required: l.In == "path", Val: noVal()}
+			var reqs []Req
+			for _, t := range textsFor(k.T, k.F) {
+				if usable(d, t) {
+					if l.In == "path" {
+						reqs = append(reqs, Req{Seg: t, Wire: true})
+					} else {
+						reqs = append(reqs, Req{Pairs: []Pair{{K: d.Name, V: t}}, Wire: true})
+					}
+				}
+			}
+			c.Case(bindCase(d, reqs))
+			nWire++
+		}
+	}
+	c.Extra["wire_declarations"] = nWire
 	// (5) files
 	for _, f := range []flags{{false, false, false}, {true, false, false}} {
 		d := Decl{In: "formData", Enc: "multipart", Name: "up", Type: "file", Required: f.Req, Val: noVal()}
